@@ -150,6 +150,18 @@ def graph_case(draw, tier):
             del nd["valid"]     # woken-but-not-ready evaluations (an input still invalid) must not lose pending requests
         stmts.append(nd)
         ports.append(f"n{i}")
+    if draw(st.sampled_from([0, 1, 2, 3])) == 0:
+        # the scheduler nodes live in a nested child graph (their wake-ups travel through the nested node's own schedule,
+        # and input ticks visit the parent while their requests are pending)
+        srcs = [s_ for s_ in stmts if s_["op"] == "src"]
+        names = [s_["id"] for s_ in srcs]
+        body = []
+        for s_ in stmts:
+            if s_["op"] == "node":
+                body.append(dict(s_, ins=[({"arg": names.index(r)} if r in names else r) for r in s_["ins"]]))
+        sub = {"params": ["TS[int]"] * len(names), "out": "TS[int]", "stmts": body, "ret": body[-1]["id"]}
+        top = srcs + [{"id": "nest", "op": "nested", "sub": "G", "ins": names}, {"id": "rec", "op": "node", "ins": ["nest"], "log_inputs": False}]
+        return {"kind": "graph", "nested": True, "prog": {"start": start, "end": end, "stmts": top, "subs": {"G": sub}}}
     stmts.append({"id": "rec", "op": "node", "ins": [ports[-1]], "log_inputs": False})
     return {"kind": "graph", "prog": {"start": start, "end": end, "stmts": stmts}}
 
@@ -178,6 +190,8 @@ def check_graph(case, ctx, res):
         if f[k]:
             res.labels.append("g_" + k)
     res.nontrivial = f["input_evals_while_pending"] >= 1 and (f["cancelled"] >= 1 or f["shared_time"] >= 1)
+    if case.get("nested"):
+        res.labels.append("g_scheduler_nodes_in_a_nested_graph")
     res.summary = {"cycles": w.root_cycles[:30], "facts": f}
 
 
